@@ -2240,7 +2240,7 @@ func (a *AuthorizerHash) Decode(d *Decoder) error {
 	cLog(Cyan, "Decoding AuthorizerHash")
 
 	var val AuthorizerHash
-	if err := val.Decode(d); err != nil {
+	if err := binary.Read(d.buf, binary.LittleEndian, &val); err != nil {
 		return err
 	}
 	cLog(Yellow, "AuthorizerHash: %x", val)
